@@ -493,6 +493,8 @@ package raft
 //@   trusted
 //@   requires l.Raft != nil && l.storage != nil && l.log != nil
 //@   requires [C09.notify-view-valid] l.log.gprev <= l.removeLTE && l.removeLTE <= l.lastLogIndex && l.lastLogIndex <= l.log.glast
+// label of the leader area's (removed duplicate) contract, kept so that the C15 obligation at the call sites survives the merge
+//@   requires [C15.view-bounds] l.removeLTE <= l.lastLogIndex
 
 // trusted (external, T-std)
 //@ ghost func tzero(uint64, int64) bool
